@@ -209,3 +209,105 @@ Proof.
   cbn zeta. split; [vm_compute; reflexivity|]. split; [vm_compute; reflexivity|].
   exists (bs "/a"). split; reflexivity.
 Qed.
+
+(* ---- one system (Model/Tables.v, Props/Tables.v, notes/Tables.md): the type table and the method lists of this
+   file's model are the ones Model/Dispatch.v (C06) and Model/Determinism.v (C04) compute ----
+   [T.u_of_disp] / [T.u_of_det] / [T.u_of_meth] describe their entries as this file's objects; [T.types_of os] /
+   [T.meths_of os] are the *types.TypeName / method entries of a Defs list of this model. *)
+Require Gengo.Model.Dispatch Gengo.Model.Determinism Gengo.Model.Tables Gengo.Props.Tables.
+Module T := Gengo.Model.Tables.
+
+(* every Defs list here, every Defs list of Dispatch describing the same type names, any two orders: same key set,
+   same lookup at every name the scope holds once *)
+Theorem C13_tables_agree_with_dispatch :
+  forall os ds,
+    Permutation (T.types_of os) (map T.u_of_disp ds) ->
+    (forall n, In n (map fst (t_types (fill_tables all_fixed os)))
+               <-> In n (Dispatch.keys (Dispatch.type_table true ds)))
+    /\ (forall n, unique_at os KType n ->
+          lookup KType n (fill_tables all_fixed os)
+          = option_map Dispatch.td_id (Dispatch.lookup n (Dispatch.type_table true ds))).
+Proof. exact Gengo.Props.Tables.Tables_universe_is_dispatch. Qed.
+Print Assumptions C13_tables_agree_with_dispatch.
+
+(* ... and Determinism's, for every behaviour of the runtime at its range over Defs *)
+Theorem C13_tables_agree_with_determinism :
+  forall (o : Determinism.oracle) p os,
+    Determinism.shuffles o ->
+    Permutation (T.types_of os) (map T.u_of_det (Determinism.pk_defs p)) ->
+    (forall n, In n (map fst (t_types (fill_tables all_fixed os)))
+               <-> In n (Determinism.keys (Determinism.type_table true o p)))
+    /\ (forall n, unique_at os KType n ->
+          lookup KType n (fill_tables all_fixed os)
+          = option_map Determinism.td_uid (Determinism.lookup n (Determinism.type_table true o p))).
+Proof. exact Gengo.Props.Tables.Tables_universe_is_determinism. Qed.
+Print Assumptions C13_tables_agree_with_determinism.
+
+(* Determinism's MethodsOf lists the names of exactly the methods this model's MethodsOf(n, true) returns
+   (C13_methods's permutation) ... *)
+Theorem C13_methods_agree_with_determinism :
+  forall fm (o : Determinism.oracle) p ptr os n,
+    Determinism.shuffles o ->
+    Permutation (T.meths_of os) (map (T.u_of_meth ptr) (Determinism.pk_meths p)) ->
+    Permutation (map o_name (methods_of all_fixed (fill_tables all_fixed os) n true))
+                (Determinism.methods_of fm o p (n_origin n)).
+Proof. exact Gengo.Props.Tables.Tables_methods_agree. Qed.
+Print Assumptions C13_methods_agree_with_determinism.
+
+(* ---- the ordering of the method lists (package.go:146-157, repair 50ddee1; [sort_methods], [new_pkg_tables]) ----
+   The comparison of Model/Determinism.v (C04) with this model showed that this model stopped at line 144: its
+   MethodsOf answered in the order of the range over Defs, the code answers in position order.  [new_pkg_tables fx pos
+   defs] = the loop, then every method list ordered by [pos] (the rank of (file name, offset)); Corr/C13.v now compares
+   MethodsOf with it IN ORDER. *)
+
+(* the name tables are those of the loop: every theorem above speaks about new_pkg_tables as well *)
+Theorem C13_new_pkg_tables_names :
+  forall fx pos defs k n, lookup k n (new_pkg_tables fx pos defs) = lookup k n (fill_tables fx defs).
+Proof. reflexivity. Qed.
+Print Assumptions C13_new_pkg_tables_names.
+
+(* MethodsOf(n, true) of the current code: the methods declared on n's origin, in position order ... *)
+Theorem C13_methods_sorted_spec :
+  forall (pos : obj -> N) defs pi n,
+    Permutation pi defs ->
+    Permutation (methods_of all_fixed (new_pkg_tables all_fixed pos pi) n true) (filter (declared_on (n_origin n)) defs)
+    /\ StronglySorted (fun a b => N.leb (pos a) (pos b) = true) (methods_of all_fixed (new_pkg_tables all_fixed pos pi) n true).
+Proof. exact Gengo.Props.Tables.Tables_sorted_methods_spec. Qed.
+Print Assumptions C13_methods_sorted_spec.
+
+(* ... the same LIST for every order in which Defs is ranged over (distinct positions), value receivers or all *)
+Theorem C13_methods_sorted_order_independent :
+  forall (pos : obj -> N) defs p1 p2 n ptr,
+    Permutation p1 defs -> Permutation p2 defs ->
+    NoDup (map pos (T.meths_of defs)) ->
+    methods_of all_fixed (new_pkg_tables all_fixed pos p1) n ptr = methods_of all_fixed (new_pkg_tables all_fixed pos p2) n ptr.
+Proof. exact Gengo.Props.Tables.Tables_sorted_methods_order_independent. Qed.
+Print Assumptions C13_methods_sorted_order_independent.
+
+(* ... and equal to Determinism's MethodsOf (positions = object identities there) *)
+Theorem C13_methods_sorted_agree_with_determinism :
+  forall (o : Determinism.oracle) p ptr os n,
+    Determinism.shuffles o ->
+    NoDup (map Determinism.m_pos (Determinism.pk_meths p)) ->
+    Permutation (T.meths_of os) (map (T.u_of_meth ptr) (Determinism.pk_meths p)) ->
+    map o_name (methods_of all_fixed (new_pkg_tables all_fixed o_id os) n true)
+    = Determinism.methods_of true o p (n_origin n).
+Proof. exact Gengo.Props.Tables.Tables_methods_sorted_agree. Qed.
+Print Assumptions C13_methods_sorted_agree_with_determinism.
+
+(* before the repair the answer depended on the order of Defs *)
+Theorem C13_methods_order_dependent_before_fix :
+  exists defs p1 p2 n,
+    Permutation p1 defs /\ Permutation p2 defs
+    /\ methods_of all_fixed (fill_tables all_fixed p1) n true <> methods_of all_fixed (fill_tables all_fixed p2) n true.
+Proof.
+  exists [ex_P; ex_V], [ex_P; ex_V], [ex_V; ex_P], (mk_nref 99 10).
+  split; [apply Permutation_refl|]. split; [apply perm_swap|]. vm_compute. discriminate.
+Qed.
+Print Assumptions C13_methods_order_dependent_before_fix.
+
+Example C13_example_methods_sorted :
+  map o_id (methods_of all_fixed (new_pkg_tables all_fixed o_id (rev ex_pkg)) (mk_nref 99 10) true) = [4; 5]%N
+  /\ map o_id (methods_of all_fixed (new_pkg_tables all_fixed o_id ex_pkg) (mk_nref 99 10) true) = [4; 5]%N
+  /\ map o_id (methods_of all_fixed (new_pkg_tables all_fixed o_id (rev ex_pkg)) (mk_nref 99 10) false) = [5]%N.
+Proof. vm_compute. repeat split; reflexivity. Qed.
